@@ -427,6 +427,45 @@ func (x *Exec) verifyFunction(fn *ssa.Function, fc *FuncContract, prop string, r
 	results, out, og := fr.run(st, g)
 	// vacuity: precondition satisfiable, some return reachable
 	rep.Vacuity = x.vacuityCheck(fc, nA0, nAEntry, og, work, timeout)
+	// every return statement should be reachable under the assumptions made on the way to it (a contradiction between
+	// an assumed callee contract and an engine assumption kills a path silently otherwise); reported, not an error:
+	// a return may be dead code
+	if len(fr.rets) > 1 && len(fr.rets) <= 24 {
+		type res struct {
+			i  int
+			st string
+		}
+		ch := make(chan res, len(fr.rets))
+		sem := make(chan struct{}, 4)
+		for i, r := range fr.rets {
+			i, r := i, r
+			go func() {
+				sem <- struct{}{}
+				defer func() { <-sem }()
+				var qf []*Term
+				for _, a := range x.assumps {
+					if !a.hasQ {
+						qf = append(qf, a)
+					}
+				}
+				rr := raceSolvers(x.c.Script(append(qf, r.guard), ScriptOpts{}), work, fmt.Sprintf("reach_%s_%d", shortKey(fc.Key), i+1), 10)
+				ch <- res{i, rr.status}
+			}()
+		}
+		var dead []string
+		for range fr.rets {
+			r := <-ch
+			if r.st == "unsat" {
+				dead = append(dead, fmt.Sprintf("return%d (%s)", r.i+1, x.P.posStr(fr.rets[r.i].pos)))
+			}
+		}
+		if len(dead) > 0 {
+			sort.Strings(dead)
+			msg := fmt.Sprintf("unreachable under the assumptions of %s: %s", shortKey(fc.Key), strings.Join(dead, ", "))
+			x.note(msg)
+			fmt.Printf("NOTE property=%s %s\n", prop, msg)
+		}
+	}
 	if og.isFalse() {
 		return
 	}
